@@ -8,6 +8,9 @@ SPEC = dict(
          "fabricated NOSCRIPT / ERR NOSCRIPT error, or a NON-error reply that looks like one (bulk or status string starting with NOSCRIPT / ERR NOSCRIPT, "
          "a string containing it, an integer, an array holding such strings); per script command received the fault hook applies an environment "
          "step: flush the script cache first (1/3), reject with NOSCRIPT or another error, or execute and kill the connection before the reply; "
+         "every command handed to the client is recorded with IsRetryable()/IsReadOnly() by a wrapping client; one case in eight is the scenario "
+         "'cold cache (or flushed right before EVALSHA), the fallback EVAL executes, its reply is lost' run with the library's DEFAULT retry policy "
+         "(oracle only: the body may run twice only for retryable / read-only scripts); "
          "a case is non-trivial when at least one script command reached the server; distinct by the whole description",
     trusted=["fake Redis server + scripting engine: script cache, NOSCRIPT replies, execution log of script bodies (Engine.Runs)",
              "the client runs with DisableRetry and a single connection (PipelineMultiplex -1): 'absent transport-level retries'",
